@@ -115,7 +115,7 @@ fn main() {
                     "sampled schedules, not exhaustive; at most 4 sources with at most 6 elements each",
                     "multi_connection.rs repeats the same round-robin over real TcpListener/UnixListener and per-connection framed streams with no seam; it is NOT run (out of reach without sockets)",
                     "a blocked source wakes only the waker of its most recent poll (the Future/Stream contract); quiescence (no woken task, no outstanding environment event) with the consumer unfinished is the lost-wake-up detector",
-                    "fairness is stated on outputs: a source that answers Ready(Some) at every poll appears in every window of n consecutive outputs, n = sources that had not yet returned None when the window starts",
+                    "fairness is stated on outputs, for sources that answer Ready(Some) at every one of their polls: such a source appears in every window of n consecutive outputs (n = sources that had not yet returned None when the window starts), and while it waits no other source is served twice ('within one round of the others'); any round-robin policy passes, a policy that restarts at a fixed or random position does not",
                 ],
                 required_probes: &[
                     "source_pending_wake_now", "source_pending_blocked", "spurious_poll", "merged_pending",
